@@ -51,6 +51,21 @@ CHECKS = {
          "Every day of 8 boundary years (quick) / of all years 1950-2200 in two zones (thorough) as from and as until in 8 zones incl. +14, -11, 30-minute DST and DST-at-midnight; 335 durations from 13 start dates; all 72 presence combinations in certificate and profile.",
          "Zone offsets come from Go's embedded tzdata; run-relative notBefore is bracketed by the measured run interval.",
          "DESIGN.md §3 C04"),
+ "C06": ("exploration",
+         "exhaustive enumeration of extension kinds x criticality x body forms, short lists, rotations and every raw payload length, through builders and whole runs, decoded independently",
+         "Every kind x critical x 13 body forms, all 1089 two-element lists, 12 rotations of a 12-entry list, every !binary length up to 4096 (quick) / 65536 (thorough) at builder level and up to 1100 / 4096 through certificates, plus unique ids and the byte-valued manipulation fields at the boundary lengths. Extension list, order, OIDs, critical flag (and its DER absence) and raw bodies are compared byte for byte.",
+         "Payload contents are one pattern per length; lists longer than 2 are covered by rotation only.",
+         "DESIGN.md §3 C06"),
+ "C07": ("exploration",
+         "exhaustive enumeration of structured extension contents through whole runs; emitted bodies compared with reference DER encoders written from RFC 5280/6960",
+         "All 128 key-usage subsets x 3, 259 SAN lists, 780 (ca, pathLen) pairs, 27 policy shapes (+pairs), AIA/EKU lists, hashed and explicit key ids. Because DER is canonical, byte equality with the reference encoding is equivalent to an independent decoder reading back exactly the configured value.",
+         "Known finding: pathLen 0 (see known_findings.json). Notice without any member and ip octets >255 are outside the domain.",
+         "DESIGN.md §3 C07"),
+ "C16": ("exploration",
+         "exhaustive product of optional admission members and placement of unit variants in 1..3 x 1..3 trees through whole runs; value compared with a reference CommonPKI AdmissionSyntax encoder",
+         "6750 (quick) / 48000 (thorough) single-unit trees over every optional member and GeneralName kind, plus 21 variants at every position of every 1..3 x 1..3 shape.",
+         "Empty naming authority / empty item or OID lists have no agreed encoding and are excluded.",
+         "DESIGN.md §3 C16"),
 }
 NOT_YET = "check not built yet in this round (planned, see DESIGN.md §3)"
 
